@@ -24,10 +24,14 @@ of the tag if it spans several); for a missing end any line from the outermost u
 opening tag to the last line; a directive lacking its argument (apply / block / autoescape /
 set / extends / include) and an unknown whitespace mode are ill-formed.
 
-Binding demonstrated during development (scratch worktree, see notes/tmpl.md): dropping the
-"{{{" innermost-brace rule, letting `else` attach to any block, keeping in_loop across apply,
-an off-by-one in the reader's line counter, filtering whitespace over the whole file instead of
-per text node - each reported as VIOLATION by the S2C replay (and most by the C2S validation).
+Binding demonstrated during development (scratch worktree, one edit at a time, details in
+notes/tmpl.md): innermost-brace rule not applied to runs of >= 4 braces; `else` allowed to attach
+to `block`; `apply` body inheriting in_loop; the reader's line counter skipping a newline at the
+start of a consumed chunk; `single` whitespace mode collapsing only spaces; `{{!` at the very end
+of the text not treated as an escape; `ancestors.reverse()` dropped.  Every one is reported as a
+VIOLATION by the S2C replay (the first three only since final ParseErrors are closed by up to two
+{% end %} tokens, see Gen_TemplateLang.tla).  Findings F70-F72 (fixed upstream) were found by this
+check on the then-unchanged tree.
 """
 from harness import framework
 from harness import tmpl_driver as D
